@@ -80,6 +80,23 @@ def job_estimate(j):
         src = GroupLibrary.Load(j['lib'])
         lib = GroupLibrary(src.scheme)
         lib.Update(src)
+    if j.get('pathless_after'):
+        # two libraries WITHOUT a file path in one process (built from loaded contents), the other one asked for its standard errors first
+        o_ = get_lib(j['pathless_after'])
+        O_ = GroupLibrary(o_.scheme, o_.contents, o_.uq_contents)
+        try:
+            d0 = [d for d in o_.uq_contents['descriptors'] if 'thermochem' in o_[d]][0]
+            e0 = O_.Estimate({d0: 1}, 'thermochem')
+            for T_ in j['Ts']:
+                for p_ in ('cp', 'h', 's'):
+                    try:
+                        getattr(e0, GETTERS[p_] + '_SE')(T_)
+                    except Exception:
+                        pass
+        except Exception:
+            pass
+        L_ = get_lib(j['lib'])
+        lib = GroupLibrary(L_.scheme, L_.contents, L_.uq_contents)
     if j.get('copied_then_widened'):
         # the groups of this library were copied into another library (Update), and the COPIES were then widened by a further merge:
         # the library estimated from below is the untouched original
@@ -460,6 +477,22 @@ def job_lib_updates(j):
 
 
 def job_load_tree(j):
+    first = None
+    if j.get('twice'):
+        # the same path was loaded once before in this process (accepted or refused): the second load is what counts
+        try:
+            with warnings.catch_warnings(record=True):
+                warnings.simplefilter('always')
+                l0 = GroupLibrary.Load(j['path'])
+            first = {str(k): (snap(l0[k]['thermochem']) if 'thermochem' in l0[k] else None) for k in l0}
+            if j.get('then_update'):
+                # ... and that first object was merged into (overwriting) from another library in between
+                try:
+                    l0.Update(GroupLibrary.Load(j['then_update']), overwrite=True)
+                except Exception:
+                    pass
+        except Exception:
+            pass
     try:
         with warnings.catch_warnings(record=True):
             warnings.simplefilter('always')
@@ -473,7 +506,10 @@ def job_load_tree(j):
         res[str(k)] = snap(ps['thermochem']) if 'thermochem' in ps else None
         if j.get('evalTs') and 'thermochem' in ps:
             vals[str(k)] = eval_props(ps['thermochem'], j['evalTs'], ('cp', 'h', 's'))
-    return {'contents': res, 'order': [str(k) for k in lib], 'vals': vals}
+    out = {'contents': res, 'order': [str(k) for k in lib], 'vals': vals}
+    if first is not None:
+        out['same_as_first'] = first == res
+    return out
 
 
 def job_yaml_roundtrip(j):
